@@ -178,6 +178,62 @@ theorem c18_repeated_no_call (es : List ε) (hes : ∀ e ∈ es, P.admissible e)
 
 end
 
+/-! ## file_system: the rule files present at start -/
+
+/-- **`Start` is a history.**  If `Start` succeeds the provider is in the state it reaches by one create notification
+for every entry of the configured directory that is not a sub directory (`fsSources`) — regular files and symbolic
+links alike, a link having the state of its target — so every statement above holds for what is there at start too. -/
+theorem c18_fs_start_is_history (rej : List σ) (entries : List (σ × EntryKind × FileState))
+    (h : (fsStart rej entries).err = false) :
+    (fsStart rej entries).st =
+      (fileSystem : Provider σ _).after ((fsSources entries).map fun p => ⟨[.create], p.1, p.2, rej⟩) :=
+  fsInit_run rej (fsSources entries) St.init h
+
+/-- **Every rule file that exists at start is loaded, symbolic links to files included.**  If `Start` succeeds, an
+entry `n` which is not a sub directory, shows the valid content `h` (for a link: its target does) and is not refused by
+the processor has exactly the rule set `h` loaded afterwards — provided no other entry of that name says otherwise
+(names in a directory are unique). -/
+theorem c18_fs_start_loads_every_source (rej : List σ) (entries : List (σ × EntryKind × FileState))
+    (hstart : (fsStart rej entries).err = false) (n : σ) (k : EntryKind) (h : Hash)
+    (hmem : (n, k, .valid h) ∈ entries) (hk : k ≠ .directory) (hne : h ≠ 0) (hacc : n ∉ rej)
+    (hz : ∀ e ∈ entries, e.2.2 ≠ .valid 0) (huniq : ∀ e ∈ entries, e.1 = n → e.2.2 = .valid h) :
+    loaded (fsStart rej entries).st.active n = [h] := by
+  rw [c18_fs_start_is_history rej entries hstart]
+  have hsrc : ∀ p ∈ fsSources entries, ∃ e ∈ entries, e.1 = p.1 ∧ e.2.2 = p.2 := by
+    intro p hp
+    simp only [fsSources, List.mem_filterMap] at hp
+    obtain ⟨e, he, hpe⟩ := hp
+    obtain ⟨a, b, c⟩ := e
+    by_cases hb : b = .directory
+    · simp [hb] at hpe
+    · simp only [hb, if_false, Option.some.injEq] at hpe
+      exact ⟨(a, b, c), he, by rw [← hpe], by rw [← hpe]⟩
+  have hadm : ∀ e ∈ (fsSources entries).map (fun p => (⟨[.create], p.1, p.2, rej⟩ : FsEvent σ)),
+      (fileSystem : Provider σ _).admissible e := by
+    intro e he
+    obtain ⟨p, hp, rfl⟩ := List.mem_map.mp he
+    obtain ⟨x, hx, _, hx2⟩ := hsrc p hp
+    show p.2 ≠ .valid 0
+    rw [← hx2]; exact hz x hx
+  rw [c18_converges fileSystem c18_file_system_correct _ hadm n, List.map_map]
+  have : desired (List.map ((fun x => (fileSystem : Provider σ _).obs x n) ∘ fun p => (⟨[.create], p.1, p.2, rej⟩ : FsEvent σ))
+      (fsSources entries)) = some h := by
+    apply desired_of_shown _ h (fsSources entries) none
+    · intro p hp
+      obtain ⟨x, hx, hx1, hx2⟩ := hsrc p hp
+      simp only [Function.comp, Provider.obs, fileSystem, hacc, if_false]
+      by_cases e : p.1 = n
+      · right
+        have := huniq x hx (hx1.trans e)
+        simp [e, FsEvent.raw, ← hx2, this, FileState.obs]
+      · left; simp [e]
+    · right
+      refine ⟨(n, .valid h), ?_, ?_⟩
+      · simp only [fsSources, List.mem_filterMap]
+        exact ⟨(n, k, .valid h), hmem, by simp [hk]⟩
+      · simp [Function.comp, Provider.obs, fileSystem, hacc, FsEvent.raw, FileState.obs]
+  rw [this]; rfl
+
 /-! ## kubernetes -/
 
 variable {κ : Type} [DecidableEq κ]
@@ -206,6 +262,16 @@ example : desired (fsHistory.map ((fileSystem : Provider String _).obs · "a")) 
     desired ((fsHistory.take 7).map ((fileSystem : Provider String _).obs · "a")) = some 3 := by decide
 /-- the hypothesis of `c18_file_system_correct` is needed: an empty digest would be taken for "not loaded" -/
 example : (fsStep ⟨[("a", 0)], [("a", 0)]⟩ ⟨[.write], "a", .valid 5, []⟩).st.active = [("a", 0), ("a", 5)] := by decide
+
+/-- a directory at start: a symbolic link to a rule file, a regular rule file, a dangling link, a sub directory -/
+def dirAtStart : List (String × EntryKind × FileState) :=
+  [("current.yaml", .symlink, .valid 4), ("plain.yaml", .regular, .valid 5), ("gone.yaml", .symlink, .missing),
+   ("sub", .directory, .invalid)]
+
+example : (fsStart [] dirAtStart).err = false ∧
+    (fsStart [] dirAtStart).st.active = [("current.yaml", 4), ("plain.yaml", 5)] := by decide
+/-- a link to a directory is read like a file and makes `Start` fail, a sub directory is skipped -/
+example : (fsStart [] [("d", .symlink, .invalid), ("x.yaml", .regular, .valid 1)]).err = true := by decide
 
 /-- a bucket: one blob breaks while another changes and a third disappears; then the bucket cannot be reached -/
 def blobHistory : List (BlobEvent String) :=
